@@ -4,6 +4,7 @@ import (
 	"fmt"
 	"sort"
 	"strings"
+	"verif/harness/drv"
 
 	"verif/harness/gen"
 	"verif/harness/ir"
@@ -193,7 +194,7 @@ func C15(c *Ctx) error {
 		alt     *plug.Result
 		altReq  *ir.Request
 		refReq  *ir.Request // when set: the reference is this request's output (not the base's)
-		only    string // compare only the files of this proto file
+		only    string      // compare only the files of this proto file
 		err     error
 	}
 	var jobs []*cmpJob
@@ -277,6 +278,39 @@ func C15(c *Ctx) error {
 		env := []string{fmt.Sprintf("GOMAXPROCS=%d", []int{1, 2, 4, 16}[i%4])}
 		j.alt, j.err = plug.Run(j.plugin, j.altReq, &plug.RunOpts{Env: env})
 	})
+	// correspondence for parameter spellings: OaParams.formatOfParam == the format the real plugin chose
+	{
+		var ps []string
+		var pj []*cmpJob
+		for _, j := range jobs {
+			if j.refReq != nil && j.err == nil && j.alt != nil && j.alt.OK() && len(j.alt.Files) > 0 {
+				ps = append(ps, j.altReq.Parameter)
+				pj = append(pj, j)
+			}
+		}
+		if len(ps) > 0 && drv.Available() {
+			outs, err := drv.Run([]map[string]any{{"op": "oa_format", "params": ps}})
+			if err != nil {
+				res.Corr("driver", "Lean driver failed: "+err.Error(), nil)
+			} else {
+				fm := asList(outs[0]["formats"])
+				for i, j := range pj {
+					real := "FormatYAML"
+					for n := range j.alt.Files {
+						if strings.HasSuffix(n, ".json") {
+							real = "FormatJSON"
+						}
+					}
+					if i < len(fm) && fmt.Sprint(fm[i]) == real {
+						res.CorrAgree()
+					} else {
+						res.Corr("param_format", fmt.Sprintf("parameter %q: the plugin emitted %s, OaParams.formatOfParam = %v", ps[i], real, fm[i]),
+							map[string]any{"schema": j.b.req, "parameter": ps[i], "real_format": real})
+					}
+				}
+			}
+		}
+	}
 	for _, j := range jobs {
 		if j.err != nil {
 			return j.err
